@@ -101,7 +101,11 @@ impl DeweyVersion {
             let numstr: String =
                 slice.chars().take_while(char::is_ascii_digit).collect();
             if !numstr.is_empty() {
-                version.push(numstr.parse::<i64>().unwrap());
+                /*
+                 * The string is all digits, so the only possible failure is
+                 * overflow, in which case saturate rather than panic.
+                 */
+                version.push(numstr.parse::<i64>().unwrap_or(i64::MAX));
                 idx += numstr.len();
                 continue;
             }
